@@ -87,6 +87,14 @@ func (txEngine) Generate(prop string, r *simrt.RNG, tier string, run int) *simrt
 		}
 		sc.Ops = append(sc.Ops, simrt.Op{K: "restart"}, simrt.Op{K: "replaylast", I: []int64{int64(r.Intn(4))}}, simrt.Op{K: "wait", I: []int64{3000}})
 	}
+	if r.Chance(1, 3) {
+		// directed: a height-bound transaction is packed at the earliest height of
+		// its window, the chain grows until that block is the oldest one the
+		// duplicate window still covers, then a reorganisation of the tip offers
+		// the transaction again in the replacing block
+		nonce += 70
+		sc.Ops = append(sc.Ops, simrt.Op{K: "edgereplay", I: []int64{int64(r.Intn(NAccounts)), int64(r.Intn(NAccounts)), nonce, int64(r.Range(-1, 1))}})
+	}
 	sc.Ops = append(sc.Ops, simrt.Op{K: "wait", I: []int64{5000}})
 	return sc
 }
@@ -340,6 +348,55 @@ func (txEngine) run(ctx *simrt.Ctx) *simrt.Violation {
 			if string(lastHash(sut)) != string(tipBefore) {
 				// the producer may have added a block of pooled transactions meanwhile; the scan judges it
 				ctx.Probe("tip_moved_across_restart")
+			}
+		case "edgereplay":
+			adopt()
+			tip := tipBuilt()
+			if tip == nil {
+				continue
+			}
+			hgt := sut.Chain.GetBlockHeight()
+			v := &cty.CoinsAction_Transfer{Transfer: &types.AssetsTransfer{Amount: 13, To: w.Addr(int(op.Int(1)))}}
+			T := &types.Transaction{Execer: []byte(cfg.GetCoinExec()), Payload: types.Encode(&cty.CoinsAction{Value: v, Ty: cty.CoinsActionTransfer}), To: w.Addr(int(op.Int(1))), Nonce: op.Int(2), Fee: 1000000, ChainID: cfg.GetChainID()}
+			T.Expire = types.TxHeightFlag + hgt + 1 + low // packed at hgt+1: the earliest height of its window
+			T.Sign(types.SECP256K1, w.key(int(op.Int(0))).Priv)
+			sent = append(sent, T)
+			nextID++
+			first := w.BuildRaw(nextID, tip.ID, 0, maxI64(1, time.Now().Unix()-tip.Block.BlockTime), []*types.Transaction{T})
+			if first == nil {
+				continue
+			}
+			if ok, _ := Deliver(sut, first.Block, 0, "peerA"); !ok || string(lastHash(sut)) != string(first.Hash) {
+				continue
+			}
+			parent := first
+			grow := low + high + op.Int(3) // the block of T is then exactly at (or next to) the edge of the window
+			okGrow := true
+			for k := int64(0); k < grow; k++ {
+				nextID++
+				b := w.BuildRaw(nextID, parent.ID, 0, 1, []*types.Transaction{mkTx(txGood, int(k)%NAccounts, int(k+1)%NAccounts, 2, op.Int(2)+1+k, 0)})
+				if b == nil {
+					okGrow = false
+					break
+				}
+				Deliver(sut, b.Block, 0, "peerA")
+				if string(lastHash(sut)) != string(b.Hash) {
+					okGrow = false
+					break
+				}
+				parent = b
+			}
+			if !okGrow || parent.Up == nil {
+				continue
+			}
+			// a heavier sibling of the tip that carries T again
+			nextID++
+			repl := w.BuildRaw(nextID, parent.Up.ID, 3, 1, []*types.Transaction{mkTx(txGood, 1, 2, 3, op.Int(2)+40, 0), types.Clone(T).(*types.Transaction)})
+			if repl != nil {
+				ok, msg := Deliver(sut, repl.Block, 0, "peerB")
+				ctx.Probe("offered_bad")
+				ctx.Probe("replay_at_window_edge_after_reorg")
+				ctx.Logf("edge replay: T packed at %d, tip %d, replacing block h=%d ok=%v %s -> height %d", first.Height, parent.Height, repl.Height, ok, msg, sut.Chain.GetBlockHeight())
 			}
 		case "replaylast":
 			// the last height-bound transaction again: to the pool and/or inside a peer block
